@@ -1,0 +1,15 @@
+//go:build verif
+
+package governance
+
+import "github.com/nspcc-dev/neo-go/pkg/crypto/keys"
+
+// VerifNewAlphabetList exports newAlphabetList for the verification harness.
+func VerifNewAlphabetList(fsChain, mainnet keys.PublicKeys) (keys.PublicKeys, error) {
+	return newAlphabetList(fsChain, mainnet)
+}
+
+// VerifUpdateInnerRing exports updateInnerRing for the verification harness.
+func VerifUpdateInnerRing(innerRing, before, after keys.PublicKeys) (keys.PublicKeys, error) {
+	return updateInnerRing(innerRing, before, after)
+}
